@@ -1,4 +1,5 @@
 import ScrapliModel.Lemmas.Loss
+import ScrapliModel.Lemmas.LossGen
 import ScrapliModel.Lemmas.LossNc
 import ScrapliModel.Lemmas.Channel
 import ScrapliModel.Generated.Consts
@@ -17,9 +18,11 @@ Model: `ScrapliModel/Loss.lean`. The theorems quantify over
   in ticks (one step of each goroutine per tick, in either order),
 * every completion predicate (`P : Bytes → Bool`, in particular the regex matchers).
 
-`Exact U prog` is C01's well-formedness for a program: every read completes exactly when it has
-consumed everything emitted so far. `Starved s o` says the loss strikes before the bytes the
-lossless run needs (`need`) have been delivered: for a fresh operation, `k < need 0 prog`.
+`DoomedSt s o` is "the loss point lies before completion": some read's predicate fires on no
+prefix that can still be obtained, the reads before it completing exactly. `Exact U prog` is C01's
+well-formedness for a program (every read completes exactly when it has consumed everything emitted
+so far); with `Starved s o` (fewer bytes obtainable than the lossless run needs, for a fresh
+operation `k < need 0 prog`) it implies `DoomedSt` (`doomed_of_exact_starved`).
 -/
 namespace Scrapli.Loss.C06
 open Scrapli Scrapli.Chan Scrapli.Loss
@@ -32,31 +35,27 @@ def start (prog : List Phase) : Op := { prog := prog, rb := [], outs := [] }
 
 /-! ## loss_yields_error -/
 
-/-- Safety half. If the loss strikes before the operation's completion predicates can have been
-satisfied, no interleaving whatsoever makes the operation report success. -/
+/-- Safety half. `DoomedSt s o` = the loss strikes before completion: with the bytes the operation
+holds plus those the transport will still deliver, some read's completion predicate fires on no
+obtainable prefix (the reads before it completing exactly). Then no interleaving whatsoever makes
+the operation report success. -/
 theorem loss_never_ok (sched : List Actor) (s s' : St) (o : Op) (outs : List Bytes)
-    (hE : Exact (unread s o) o.prog) (hJ : Starved s o) :
-    run sched s o ≠ (s', .inr (.ok outs)) := by
-  intro hr
-  obtain ⟨s1, o1, _, a2, _, a4⟩ := run_result sched s s' o _ hE hr
-  rcases ostep_inr s1 s' o1 _ a4 with ⟨hp, _, _⟩ | ⟨_, _, _, _, _, h⟩ | ⟨_, _, _, _, _, h⟩
-  · exact starved_prog_ne s1 o1 (a2 hJ) hp
-  · simp at h
-  · simp at h
+    (hD : DoomedSt s o) : run sched s o ≠ (s', .inr (.ok outs)) :=
+  inv_never_ok doomed_stepInv sched s s' o outs hD
 
 /-- THE PROPERTY (operation in flight). Whatever happened during the first `pre` ticks: if by then
 a transport read has reported the loss (`lost`) and the operation is still in flight, it returns
 an error within `maxAdjWrites + 1` further ticks — it does not wait for its deadline, and it never
 returns `ok`. -/
 theorem loss_yields_error (pre post : List Bool) (s s1 : St) (o o1 : Op)
-    (hE : Exact (unread s o) o.prog) (hJ : Starved s o) (hL : LostArmed s)
+    (hD : DoomedSt s o) (hL : LostArmed s)
     (hpre : run (ticks pre) s o = (s1, .inl o1)) (hlost : s1.lost = true)
     (hpost : maxAdjWrites o.prog < post.length) :
     ∃ s' e, run (ticks (pre ++ post)) s o = (s', .inr (.error e)) := by
-  obtain ⟨a1, a2, a3, _, _, pfx, hpfx⟩ := run_inv (ticks pre) s s1 o o1 hE hpre
+  obtain ⟨a1, a2, _, pfx, hpfx⟩ := run_keeps doomed_stepInv (ticks pre) s s1 o o1 hD hpre
   rw [ticks_append, run_append, hpre]
   simp only
-  apply armed_returns (ticks post) s1 o1 (a3 hL hlost) a1 (a2 hJ)
+  apply inv_armed_returns doomed_stepInv (ticks post) s1 o1 (a2 hL hlost) a1
   rw [opCount_ticks]
   have h1 := adjWrites_le_max o1.prog
   have h2 := maxAdjWrites_suffix pfx o1.prog
@@ -66,11 +65,16 @@ theorem loss_yields_error (pre post : List Bool) (s s1 : St) (o o1 : Op)
 /-- … in particular "time of loss + 2 ticks" for every operation that never issues two writes in
 a row (`SendInput`, `GetPrompt`, visible `SendInteractive` events). -/
 theorem loss_yields_error_two_ticks (pre : List Bool) (b1 b2 : Bool) (s s1 : St) (o o1 : Op)
-    (hE : Exact (unread s o) o.prog) (hJ : Starved s o) (hL : LostArmed s)
-    (hw : maxAdjWrites o.prog ≤ 1)
+    (hD : DoomedSt s o) (hL : LostArmed s) (hw : maxAdjWrites o.prog ≤ 1)
     (hpre : run (ticks pre) s o = (s1, .inl o1)) (hlost : s1.lost = true) :
     ∃ s' e, run (ticks (pre ++ [b1, b2])) s o = (s', .inr (.error e)) :=
-  loss_yields_error pre [b1, b2] s s1 o o1 hE hJ hL hpre hlost (by simp; omega)
+  loss_yields_error pre [b1, b2] s s1 o o1 hD hL hpre hlost (by simp; omega)
+
+/-- the exact form: every read completes exactly at the end of its part of the exchange and the
+loss leaves fewer bytes than the lossless run consumes -/
+theorem doomed_of_exact_starved (s : St) (o : Op) (hE : Exact (unread s o) o.prog)
+    (hJ : Starved s o) : DoomedSt s o :=
+  doomed_of_exact _ _ _ hE hJ
 
 /-- the same from the start of an operation on a clean channel: loss after `k` bytes, `k` smaller
 than what the lossless run consumes -/
@@ -80,13 +84,13 @@ theorem loss_yields_error_fresh (k : Nat) (kind : Kind) (prog : List Phase) (pre
     (hpost : maxAdjWrites prog < post.length) :
     (∃ s' e, run (ticks (pre ++ post)) (fresh k kind) (start prog) = (s', .inr (.error e))) ∧
     ∀ sched s' outs, run sched (fresh k kind) (start prog) ≠ (s', .inr (.ok outs)) := by
-  have hE' : Exact (unread (fresh k kind) (start prog)) (start prog).prog := by
-    simpa [unread, fresh, start] using hE
-  have hJ : Starved (fresh k kind) (start prog) := by
-    simp [Starved, budget, unread, fresh, start]; exact hk
+  have hD : DoomedSt (fresh k kind) (start prog) := by
+    apply doomed_of_exact_starved
+    · simpa [unread, fresh, start] using hE
+    · simp [Starved, budget, unread, fresh, start]; exact hk
   have hL : LostArmed (fresh k kind) := by simp [LostArmed, fresh]
-  exact ⟨loss_yields_error pre post _ s1 _ o1 hE' hJ hL hpre hlost hpost,
-    fun sched s' outs => loss_never_ok sched _ s' _ outs hE' hJ⟩
+  exact ⟨loss_yields_error pre post _ s1 _ o1 hD hL hpre hlost hpost,
+    fun sched s' outs => loss_never_ok sched _ s' _ outs hD⟩
 
 /-! ## later_ops_error -/
 
@@ -94,11 +98,10 @@ theorem loss_yields_error_fresh (k : Nat) (kind : Kind) (prog : List Phase) (pre
 error) every later operation whose completion needs bytes beyond what is already queued returns an
 error: never `ok`, and within `maxAdjWrites + 2` ticks (one for the read goroutine to notice). -/
 theorem later_ops_error (ord : List Bool) (s : St) (o : Op) (h0 : s.left = 0)
-    (hE : Exact (unread s o) o.prog) (hJ : Starved s o)
-    (hlen : maxAdjWrites o.prog + 2 ≤ ord.length) :
+    (hD : DoomedSt s o) (hlen : maxAdjWrites o.prog + 2 ≤ ord.length) :
     (∃ s' e, run (ticks ord) s o = (s', .inr (.error e))) ∧
     ∀ sched s' outs, run sched s o ≠ (s', .inr (.ok outs)) := by
-  refine ⟨?_, fun sched s' outs => loss_never_ok sched s s' o outs hE hJ⟩
+  refine ⟨?_, fun sched s' outs => loss_never_ok sched s s' o outs hD⟩
   cases ord with
   | nil => simp at hlen
   | cons b rest =>
@@ -109,8 +112,8 @@ theorem later_ops_error (ord : List Bool) (s : St) (o : Op) (h0 : s.left = 0)
     cases b with
     | true =>
       show ∃ s' e, run (Actor.op :: ticks rest) (rstep s) o = (s', .inr (.error e))
-      apply armed_returns _ (rstep s) o (rstep_arms s h0) (by rw [rstep_unread]; exact hE)
-        (rstep_starved s o hJ)
+      apply inv_armed_returns doomed_stepInv _ (rstep s) o (rstep_arms s h0)
+        (doomed_stepInv.rdr s o hD)
       have := adjWrites_le_max o.prog
       simp only [opCount, opCount_ticks]; omega
     | false =>
@@ -119,24 +122,24 @@ theorem later_ops_error (ord : List Bool) (s : St) (o : Op) (h0 : s.left = 0)
         | (s', .inr r) => (s', .inr r)) = (s', .inr (.error e))
       rcases hs : ostep s o with ⟨s2, o2 | r⟩
       · show ∃ s' e, run (ticks rest) (rstep s2) o2 = (s', .inr (.error e))
-        obtain ⟨b1, _, _, b4, _⟩ := ostep_summary s s2 o o2 hE hs
-        obtain ⟨_, _, _, _, _, pfx, hpfx⟩ := run_inv [.op] s s2 o o2 hE (by simp [run, hs])
-        apply armed_returns _ (rstep s2) o2 (rstep_arms s2 (by rw [b4]; exact h0))
-          (by rw [rstep_unread]; exact b1) (rstep_starved s2 o2 (ostep_starved s s2 o o2 hE hJ hs))
+        have b1 := doomed_stepInv.op s s2 o o2 hD hs
+        obtain ⟨pfx, hpfx⟩ := ostep_suffix s s2 o o2 hs
+        apply inv_armed_returns doomed_stepInv _ (rstep s2) o2
+          (rstep_arms s2 (by rw [ostep_left s s2 o o2 hs]; exact h0)) (doomed_stepInv.rdr s2 o2 b1)
         have h1 := adjWrites_le_max o2.prog
         have h2 := maxAdjWrites_suffix pfx o2.prog
         rw [← hpfx] at h2
         rw [opCount_ticks]; omega
       · simp only
         rcases ostep_inr s s2 o r hs with ⟨hp, _, _⟩ | ⟨_, _, _, _, _, hr⟩ | ⟨_, _, e, _, _, hr⟩
-        · exact absurd hp (starved_prog_ne s o hJ)
+        · exact absurd hp (doomed_stepInv.ne s o hD)
         · exact ⟨s2, .write, by rw [hr]⟩
         · exact ⟨s2, e, by rw [hr]⟩
 
 /-- the dead transport stays dead: nothing an operation or the read goroutine does brings bytes back -/
 theorem loss_is_permanent (sched : List Actor) (s s1 : St) (o o1 : Op) (h0 : s.left = 0)
-    (hE : Exact (unread s o) o.prog) (hr : run sched s o = (s1, .inl o1)) : s1.left = 0 :=
-  (run_inv sched s s1 o o1 hE hr).2.2.2.1 h0
+    (hD : DoomedSt s o) (hr : run sched s o = (s1, .inl o1)) : s1.left = 0 :=
+  (run_keeps doomed_stepInv sched s s1 o o1 hD hr).2.2.1 h0
 
 /-! ## no_truncated_success -/
 
@@ -167,14 +170,14 @@ theorem sendInput_no_truncated_success (cfg : Cfg) (x : Exchange) (stale : List 
   have hE : Exact (unread { fresh k kind with q := stale, wleft := w } (start (sendInputProg cfg x)))
       (start (sendInputProg cfg x)).prog := by
     simp only [unread, fresh, start, sendInputProg, Exact, List.flatten_nil, List.append_nil,
-      List.nil_append, List.flatten_append]
+      List.nil_append]
     simpa using hwf
   constructor
   · have := no_truncated_success sched _ s' _ outs hE hr
     simpa [unread, fresh, start, sendInputProg, ideal] using this
   · apply Nat.le_of_not_lt
     intro hlt
-    apply loss_never_ok sched _ s' _ outs hE _ hr
+    apply loss_never_ok sched _ s' _ outs (doomed_of_exact_starved _ _ hE _) hr
     simp only [Starved, budget, unread, fresh, start, sendInputProg, need, List.flatten_nil,
       List.append_nil, List.nil_append, List.length_nil, List.length_append, List.flatten_append] at hlt ⊢
     omega
@@ -306,6 +309,15 @@ example :
   refine ⟨⟨⟨by decide, by decide⟩, ⟨by decide, by decide⟩, trivial⟩, rfl, ?_, ?_, rfl⟩
   · simp [Starved, budget, unread, fresh, start, need]
   · simp [LostArmed, fresh]
+
+/-- `DoomedSt` does not need exactness: a prompt-like predicate that already holds one byte before
+the end of the reply (trailing blank); the loss after 2 of 4 bytes is still "before completion" -/
+example :
+    let P : Bytes → Bool := fun b => b == [1, 2, 3] || b == [1, 2, 3, 4]
+    DoomedSt (fresh 2 .eof) (start [.write [10] [[1, 2], [3, 4]], .read P]) := by
+  simp only [DoomedSt, fresh, start, unread, budget, Doomed]
+  left
+  decide
 
 /-- and the run itself: after 3 ticks the loss has been reported and the operation is still in
 flight (the premises of `loss_yields_error`), after 5 it has returned the transport's error -/
